@@ -159,6 +159,16 @@ def _ord(fn, inst):
     return 0
 
 
+def del_elem_shape(pdb):
+    """the rules on pfx_table_del_elem (gap closed in ascending order, element put back at index len on failure, elements and length
+    change together) are written for the removal that shifts the tail down by one; a removal that fills the gap another way (last
+    element moved into it) keeps the set but not the order, and is not recognised by matching"""
+    fn = pdb.fn("pfx_table_del_elem")
+    if not fn.loops() and not [c for c in fn.calls() if "memmove" in (c.callee or "")]:
+        raise AnalysisBroken("pfx_table_del_elem: the tail is no longer shifted down to close the gap (no loop, no memmove): the rules on the "
+                             "order of the remaining elements and on what a failed shrink puts back are written for the shifting form")
+
+
 def r3(ctx, retsets):
     pdb = ctx.pdb
     ctx.rule("C18.R3", "failure edge, element level: append leaves the node untouched; delete restores the removed element and the length; "
@@ -183,6 +193,7 @@ def r3(ctx, retsets):
     ctx.check(bool(ok) and all({"write:len", "write:ary", "write:asn", "write:max_len", "write:socket"} <= set(o["counts"]) for o in ok), "C18.R3", "append_elem[ok]",
               "%s:%d" % (fn.relfile, fn.line), "length, array pointer and the three element fields are written", key="C18.R3:append-ok")
     # delete: restoring pair
+    del_elem_shape(pdb)
     fn = pdb.fn("pfx_table_del_elem")
     ctx.touch(fn)
     LEN = ("fld", ("arg", 0), "node_data.len")
@@ -211,7 +222,7 @@ def r3(ctx, retsets):
     ctx.check(good, "C18.R3", "del_elem[realloc fails]", "%s:%d" % (fn.relfile, fn.line), "effects %s (expected: element put back at index len, len incremented again, PFX_ERROR)" % [o["counts"] for o in fail],
               key="C18.R3:del")
     # router-key container: a failed segment allocation leaves the size bookkeeping as it was (the table keeps working with longer chains)
-    fn = pdb.fn("hashlin_grow_step")
+    fn = pdb.fn_flat("hashlin_grow_step")
     ctx.touch(fn)
     HARMLESS = {"tommy_hashlin_struct.low_max", "tommy_hashlin_struct.low_mask"}     # copies of the live values, read only while growing
 
